@@ -176,7 +176,7 @@ Qed.
 (** writing the store itself wakes every reader *)
 Theorem root_write_wakes_all r : wakes_k WRoot [] r = true.
 Proof.
-  apply wakes_k_spec. exists (This []). split; [cbn [notified In]; auto|].
+  apply wakes_k_spec. exists (This []). split; [cbn [notified]; change (triggers_for_path []) with [Children []; Children []; This []]; cbn [In]; auto|].
   apply in_track_field. left. exists []. split; reflexivity.
 Qed.
 
